@@ -444,7 +444,7 @@ QUICK_RULES = [
     "ard 1500/4000 for (arc,fr) in {(0,0),(3,1),(15,3)}",
     "Q5 deaf peer (one execution per history), every mode: every history of <= 2 calls for arc <= 3 (all ard, all fr); arc=15: ard=250 "
     "{S,L,R,SR,SS,RS} for fr<=1, {S,SR} for fr>=2; ard 1500/4000 {S,SR} for fr=0 only",
-    "Q6 send_only alternating per call (True on the 1st call, False on the 2nd): ACK payloads, (arc,fr) in {(0,0),(1,0),(0,1)}, ard=250, {SS,SL,LS,SR,RS}",
+    "Q6 send_only alternating per call (True on the 1st call, False on the 2nd): ACK payloads, (arc,fr) in {(0,0),(1,0),(0,1)}, ard=250, {SS,SL,LS,SR,RS,LR}",
     "Q7 SPI transaction cost 30 us; 12 us and 100 us for (arc,fr)=(1,1), ard=250, plain and ACK payloads, {S,SR,SS,RS}",
 ]
 THOROUGH_RULES = [
@@ -526,7 +526,7 @@ def plan(tier, tx_cls="full", rx_cls="full"):
     for arc, fr in ((0, 0), (1, 0), (0, 1)) if quick else ((0, 0), (1, 0), (0, 1), (1, 1)):
         for ard in (250,) if quick else (250, 1500):
             items.append((mk_fc(arc, ard, fr, "ackpl", "alt", True, tx_cls, rx_cls),
-                          ["SS", "SL", "LS", "SR", "RS"] if quick else [h for h in H3 if len(h) > 1]))
+                          ["SS", "SL", "LS", "SR", "RS", "LR"] if quick else [h for h in H3 if len(h) > 1]))
     # SPI cost (polling period) classes
     for cost in (12, 100):
         for arc, fr in ((1, 1),) if quick else ((0, 1), (1, 1), (1, 0), (3, 1)):
